@@ -27,11 +27,33 @@ Definition RK_GREGION : N := 3.  (* GuestRegionMmap *)
 Definition RK_GMEM : N := 4.     (* GuestMemoryMmap *)
 
 (* accessor kinds *)
-Definition K_SLICE : N := 0.  Definition K_REF : N := 1.  Definition K_ARR : N := 2.
-Definition K_TYPED : N := 3.  Definition K_ATOMIC : N := 4.  Definition K_HOST : N := 5.
-Definition K_REGION : N := 6. Definition K_GREGION : N := 7. Definition K_GMEM : N := 8.
+Inductive kind := KSlice | KRef | KArr | KTyped | KAtomic | KHost | KRegion | KGRegion | KGMem.
+Definition kind_eqb (x y : kind) : bool :=
+  match x, y with
+  | KSlice, KSlice | KRef, KRef | KArr, KArr | KTyped, KTyped | KAtomic, KAtomic | KHost, KHost
+  | KRegion, KRegion | KGRegion, KGRegion | KGMem, KGMem => true
+  | _, _ => false
+  end.
 
-Record sop := { s_code : N; s_ty : N; s_a : N; s_b : N }.
+(* requests; the number is the code on the wire *)
+Inductive rq :=
+| QGetSlice (* 0 *) | QAsVolatileSlice (* 1 *) | QGetRef (* 2 *) | QGetArrayRef (* 3 *)
+| QAlignedAsRef (* 4 *) | QAlignedAsMut (* 5 *) | QGetAtomicRef (* 6 *)      (* trait VolatileMemory *)
+| QOffset (* 7 *) | QSubslice (* 8 *) | QSplitLo (* 9 *) | QSplitHi (* 10 *) | QIntoArrayU8 (* 11 *)
+| QRefToSlice (* 12 *) | QRefAt (* 13 *) | QArrToSlice (* 14 *) | QFromSlice (* 15 *)
+| QGrGetSlice (* 16 *) | QGrHostAddr (* 17 *) | QGrAsSlice (* 18 *)         (* GuestRegionMmap *)
+| QGmGetSlice (* 19 *) | QGmHostAddr (* 20 *).                              (* GuestMemoryMmap *)
+Definition rq_of_code (n : N) : option rq :=
+  match n with
+  | 0 => Some QGetSlice | 1 => Some QAsVolatileSlice | 2 => Some QGetRef | 3 => Some QGetArrayRef
+  | 4 => Some QAlignedAsRef | 5 => Some QAlignedAsMut | 6 => Some QGetAtomicRef | 7 => Some QOffset
+  | 8 => Some QSubslice | 9 => Some QSplitLo | 10 => Some QSplitHi | 11 => Some QIntoArrayU8
+  | 12 => Some QRefToSlice | 13 => Some QRefAt | 14 => Some QArrToSlice | 15 => Some QFromSlice
+  | 16 => Some QGrGetSlice | 17 => Some QGrHostAddr | 18 => Some QGrAsSlice
+  | 19 => Some QGmGetSlice | 20 => Some QGmHostAddr | _ => None
+  end.
+
+Record sop := { s_rq : rq; s_ty : N; s_a : N; s_b : N }.
 Record sobs := { o_class : N; o_off : N; o_len : N; o_glen : N; o_nelem : N; o_ridx : N }.
 Record case01 := { c_mode : mode; c_rootk : N; c_base : N; c_len : N;
                    c_regions : list (N * N);      (* (guest base, size) of each region *)
@@ -59,38 +81,37 @@ Definition root_base (c : case01) (ridx : N) : N :=
 Definition GUARD_PANIC : N := W64.
 
 (* what the checker knows about the current accessor: kind and OBSERVED extent *)
-Record geom := { g_kind : N; g_ridx : N; g_off : N; g_len : N; g_esz : N; g_nelem : N }.
+Record geom := { g_kind : kind; g_ridx : N; g_off : N; g_len : N; g_esz : N; g_nelem : N }.
 
 Definition root_geom (c : case01) : geom :=
   let k := c_rootk c in
-  if is_slice_root k then {| g_kind := K_SLICE; g_ridx := 0; g_off := 0; g_len := c_len c; g_esz := 1; g_nelem := 0 |}
+  if is_slice_root k then {| g_kind := KSlice; g_ridx := 0; g_off := 0; g_len := c_len c; g_esz := 1; g_nelem := 0 |}
   else
     let sz := match c_regions c with (_, s) :: _ => s | [] => 0 end in
-    {| g_kind := if k =? RK_REGION then K_REGION else if k =? RK_GREGION then K_GREGION else K_GMEM;
+    {| g_kind := if k =? RK_REGION then KRegion else if k =? RK_GREGION then KGRegion else KGMem;
        g_ridx := 0; g_off := 0; g_len := sz; g_esz := 1; g_nelem := 0 |}.
 
-Definition is_vm (k : N) : bool := (k =? K_SLICE) || (k =? K_REGION).
+Definition is_vm (k : kind) : bool := match k with KSlice | KRegion => true | _ => false end.
 
-(* which kind of accessor request `code` yields when made on an accessor of kind k; None = no
+(* which kind of accessor a request yields when made on an accessor of kind k; None = no
    such method *)
-Definition result_kind (k code : N) : option N :=
-  match code with
-  | 0 | 1 => if is_vm k then Some K_SLICE else None
-  | 2 => if is_vm k then Some K_REF else None
-  | 3 => if is_vm k then Some K_ARR else None
-  | 4 | 5 => if is_vm k then Some K_TYPED else None
-  | 6 => if is_vm k then Some K_ATOMIC else None
-  | 7 | 8 | 9 | 10 => if k =? K_SLICE then Some K_SLICE else None
-  | 11 => if k =? K_SLICE then Some K_ARR else None
-  | 15 => if k =? K_SLICE then Some K_TYPED else None
-  | 12 => if k =? K_REF then Some K_SLICE else None
-  | 13 => if k =? K_ARR then Some K_REF else None
-  | 14 => if k =? K_ARR then Some K_SLICE else None
-  | 16 | 18 => if k =? K_GREGION then Some K_SLICE else None
-  | 17 => if k =? K_GREGION then Some K_HOST else None
-  | 19 => if k =? K_GMEM then Some K_SLICE else None
-  | 20 => if k =? K_GMEM then Some K_HOST else None
-  | _ => None
+Definition result_kind (k : kind) (q : rq) : option kind :=
+  match q with
+  | QGetSlice | QAsVolatileSlice => if is_vm k then Some KSlice else None
+  | QGetRef => if is_vm k then Some KRef else None
+  | QGetArrayRef => if is_vm k then Some KArr else None
+  | QAlignedAsRef | QAlignedAsMut => if is_vm k then Some KTyped else None
+  | QGetAtomicRef => if is_vm k then Some KAtomic else None
+  | QOffset | QSubslice | QSplitLo | QSplitHi => match k with KSlice => Some KSlice | _ => None end
+  | QIntoArrayU8 => match k with KSlice => Some KArr | _ => None end
+  | QFromSlice => match k with KSlice => Some KTyped | _ => None end
+  | QRefToSlice => match k with KRef => Some KSlice | _ => None end
+  | QRefAt => match k with KArr => Some KRef | _ => None end
+  | QArrToSlice => match k with KArr => Some KSlice | _ => None end
+  | QGrGetSlice | QGrAsSlice => match k with KGRegion => Some KSlice | _ => None end
+  | QGrHostAddr => match k with KGRegion => Some KHost | _ => None end
+  | QGmGetSlice => match k with KGMem => Some KSlice | _ => None end
+  | QGmHostAddr => match k with KGMem => Some KHost | _ => None end
   end.
 
 Definition aligned_at (addr al : N) : bool := addr mod al =? 0.
@@ -103,31 +124,32 @@ Definition in_region (a b : N) (r : N * N) : bool :=
 Definition fitsb (c : case01) (g : geom) (o : sop) : bool :=
   let a := s_a o in let b := s_b o in let sz := ty_size (s_ty o) in
   let addr := root_base c (g_ridx g) + g_off g in
-  match s_code o with
-  | 0 | 8 | 16 => a + b <=? g_len g                      (* count bytes at offset *)
-  | 1 | 11 | 12 | 14 | 18 => true                        (* the whole accessor again *)
-  | 2 => a + sz <=? g_len g                              (* one T at offset *)
-  | 3 => a + b * sz <=? g_len g                          (* n T at offset *)
-  | 4 | 5 | 6 => (a + sz <=? g_len g) && aligned_at (addr + a) (ty_align (s_ty o))
-  | 7 | 9 | 10 => a <=? g_len g                          (* split point inside [0, len] *)
-  | 13 => a <? g_nelem g                                 (* element index *)
-  | 15 => (a + b <=? g_len g) && (b =? sz) && aligned_at (addr + a) (ty_align (s_ty o))
-  | 17 => a <? g_len g                                   (* a byte of the region *)
-  | 19 => existsb (in_region a b) (c_regions c)
-  | 20 => existsb (in_region a 1) (c_regions c)
-  | _ => false
+  match s_rq o with
+  | QGetSlice | QSubslice | QGrGetSlice => a + b <=? g_len g          (* count bytes at offset *)
+  | QAsVolatileSlice | QIntoArrayU8 | QRefToSlice | QArrToSlice | QGrAsSlice => true   (* the whole accessor again *)
+  | QGetRef => a + sz <=? g_len g                                     (* one T at offset *)
+  | QGetArrayRef => a + b * sz <=? g_len g                            (* n T at offset *)
+  | QAlignedAsRef | QAlignedAsMut | QGetAtomicRef =>
+      (a + sz <=? g_len g) && aligned_at (addr + a) (ty_align (s_ty o))
+  | QOffset | QSplitLo | QSplitHi => a <=? g_len g                    (* split point in [0, len] *)
+  | QRefAt => a <? g_nelem g                                          (* element index *)
+  | QFromSlice => (a + b <=? g_len g) && (b =? sz) && aligned_at (addr + a) (ty_align (s_ty o))
+  | QGrHostAddr => a <? g_len g                                       (* a byte of the region *)
+  | QGmGetSlice => existsb (in_region a b) (c_regions c)
+  | QGmHostAddr => existsb (in_region a 1) (c_regions c)
   end.
 
 (* bytes designated by the answer: an array designates nelem elements; a guard that exists
    designates glen bytes as well *)
-Definition obs_extent (rk : N) (o : sop) (ob : sobs) : N :=
-  if rk =? K_ARR then o_nelem ob * (if s_code o =? 11 then 1 else ty_size (s_ty o)) else o_len ob.
-Definition obs_reach (rk : N) (o : sop) (ob : sobs) : N :=
+Definition elem_size (o : sop) : N := match s_rq o with QIntoArrayU8 => 1 | _ => ty_size (s_ty o) end.
+Definition obs_extent (rk : kind) (o : sop) (ob : sobs) : N :=
+  match rk with KArr => o_nelem ob * elem_size o | _ => o_len ob end.
+Definition obs_reach (rk : kind) (o : sop) (ob : sobs) : N :=
   let e := obs_extent rk o ob in
   if o_glen ob =? GUARD_PANIC then e else N.max e (o_glen ob).
 
-Definition containedb (c : case01) (g : geom) (rk : N) (o : sop) (ob : sobs) : bool :=
-  if g_kind g =? K_GMEM then
+Definition containedb (c : case01) (g : geom) (rk : kind) (o : sop) (ob : sobs) : bool :=
+  if kind_eqb (g_kind g) KGMem then
     match nth_error (c_regions c) (N.to_nat (o_ridx ob)) with
     | Some (_, sz) => o_off ob + obs_reach rk o ob <=? sz
     | None => false
@@ -136,14 +158,14 @@ Definition containedb (c : case01) (g : geom) (rk : N) (o : sop) (ob : sobs) : b
     (o_ridx ob =? g_ridx g) && (g_off g <=? o_off ob) &&
     (o_off ob + obs_reach rk o ob <=? g_off g + g_len g).
 
-Definition alignedb (c : case01) (rk : N) (o : sop) (ob : sobs) : bool :=
-  if (rk =? K_TYPED) || (rk =? K_ATOMIC)
+Definition alignedb (c : case01) (rk : kind) (o : sop) (ob : sobs) : bool :=
+  if kind_eqb rk KTyped || kind_eqb rk KAtomic
   then aligned_at (root_base c (o_ridx ob) + o_off ob) (ty_align (s_ty o))
   else true.
 
 Definition step_ok (c : case01) (g : geom) (o : sop) (ob : sobs) : bool :=
   if o_class ob =? 0 then
-    match result_kind (g_kind g) (s_code o) with
+    match result_kind (g_kind g) (s_rq o) with
     | Some rk => fitsb c g o && containedb c g rk o ob && alignedb c rk o ob
     | None => false            (* an accessor from a method that does not exist *)
     end
@@ -151,12 +173,12 @@ Definition step_ok (c : case01) (g : geom) (o : sop) (ob : sobs) : bool :=
 
 Definition step_geom (g : geom) (o : sop) (ob : sobs) : geom :=
   if o_class ob =? 0 then
-    match result_kind (g_kind g) (s_code o) with
+    match result_kind (g_kind g) (s_rq o) with
     | Some rk => {| g_kind := rk; g_ridx := o_ridx ob; g_off := o_off ob;
                     g_len := obs_extent rk o ob;
-                    g_esz := if s_code o =? 11 then 1 else
-                             if (s_code o =? 12) || (s_code o =? 13) || (s_code o =? 14) then g_esz g
-                             else ty_size (s_ty o);
+                    g_esz := match s_rq o with
+                             | QRefToSlice | QRefAt | QArrToSlice => g_esz g
+                             | _ => elem_size o end;
                     g_nelem := o_nelem ob |}
     | None => g
     end
@@ -170,3 +192,107 @@ Fixpoint chain_ok (c : case01) (g : geom) (ops : list sop) (obs : list sobs) {st
   end.
 
 Definition ok_C01 (c : case01) (obs : list sobs) : bool := chain_ok c (root_geom c) (c_ops c) obs.
+
+(* ================================================================== Prop reading
+   The same notions on the model's accessor records (Impl/Volatile.v supplies only the record
+   types here), in unbounded arithmetic; the theorems of Properties/C01.v are stated with
+   these, not with the boolean checker. *)
+From VM Require Import Impl.Volatile.
+
+(* requests of trait VolatileMemory on a piece of memory at host address A, L bytes long *)
+Definition fits_vm (A L : N) (op : dop) : Prop :=
+  match op with
+  | DGetSlice off cnt => off + cnt <= L
+  | DAsVolatileSlice => True
+  | DGetRef T off => off + e_size T <= L
+  | DGetArrayRef T off n =>
+      (* the n elements lie in the memory; objects of 2^63 bytes or more, and element counts
+         above isize::MAX (possible for zero-sized T only), are refused by design *)
+      off + n * e_size T <= L /\ n <= ISZ_MAX /\ n * e_size T <= ISZ_MAX
+  | DAlignedAsRef T off | DAlignedAsMut T off | DGetAtomicRef T off =>
+      off + e_size T <= L /\ (A + off) mod e_align T = 0
+  | _ => False
+  end.
+
+(* "the request fits the accessor" *)
+Definition fits (p : accessor) (op : dop) : Prop :=
+  match p with
+  | ASlice s =>
+      match op with
+      | DOffset c => c <= vs_size s
+      | DSubslice off cnt => off + cnt <= vs_size s
+      | DSplitAtLo mid | DSplitAtHi mid => mid <= vs_size s
+      | DIntoArrayU8 => True
+      | DFromSlice T off cnt =>
+          (* the byte range is in the slice (the caller's part), it is exactly one T, T is not
+             zero-sized (from_slice answers None for zero-sized types), and it is aligned *)
+          off + cnt <= vs_size s /\ cnt = e_size T /\ e_size T <> 0 /\ (vs_addr s + off) mod e_align T = 0
+      | _ => fits_vm (vs_addr s) (vs_size s) op
+      end
+  | ARegion r => fits_vm (rg_addr r) (rg_size r) op
+  | ARef _ => match op with DRefToSlice => True | _ => False end
+  | AArr a => match op with DRefAt i => i < va_nelem a | DArrToSlice => True | _ => False end
+  | AGRegion g =>
+      match op with
+      | DGrGetSlice off cnt => off + cnt <= rg_size (gr_map g)
+      | DGrGetHostAddress a => a < rg_size (gr_map g)
+      | DGrAsVolatileSlice => True
+      | _ => False
+      end
+  | ATyped _ | AAtomic _ | AHost _ => False
+  end.
+
+(* the accessor a fitting request designates *)
+Definition child_vm (A L : N) (op : dop) : accessor :=
+  match op with
+  | DGetSlice off cnt => ASlice (VS (A + off) cnt)
+  | DGetRef T off => ARef (VR (A + off) (e_size T))
+  | DGetArrayRef T off n => AArr (VA (A + off) n (e_size T))
+  | DAlignedAsRef T off | DAlignedAsMut T off => ATyped (TR (A + off) (e_size T) (e_align T))
+  | DGetAtomicRef T off => AAtomic (TR (A + off) (e_size T) (e_align T))
+  | _ => ASlice (VS A L)
+  end.
+Definition child (p : accessor) (op : dop) : accessor :=
+  match p with
+  | ASlice s =>
+      match op with
+      | DOffset c => ASlice (VS (vs_addr s + c) (vs_size s - c))
+      | DSubslice off cnt => ASlice (VS (vs_addr s + off) cnt)
+      | DSplitAtLo mid => ASlice (VS (vs_addr s) mid)
+      | DSplitAtHi mid => ASlice (VS (vs_addr s + mid) (vs_size s - mid))
+      | DIntoArrayU8 => AArr (VA (vs_addr s) (vs_size s) 1)
+      | DFromSlice T off cnt => ATyped (TR (vs_addr s + off) (e_size T) (e_align T))
+      | _ => child_vm (vs_addr s) (vs_size s) op
+      end
+  | ARegion r => child_vm (rg_addr r) (rg_size r) op
+  | ARef r => ASlice (VS (vr_addr r) (vr_esz r))
+  | AArr a =>
+      match op with
+      | DRefAt i => ARef (VR (va_addr a + va_esz a * i) (va_esz a))
+      | _ => ASlice (VS (va_addr a) (va_nelem a * va_esz a))
+      end
+  | AGRegion g =>
+      match op with
+      | DGrGetSlice off cnt => ASlice (VS (rg_addr (gr_map g) + off) cnt)
+      | DGrGetHostAddress a => AHost (rg_addr (gr_map g) + a)
+      | _ => ASlice (VS (rg_addr (gr_map g)) (rg_size (gr_map g)))
+      end
+  | _ => p
+  end.
+
+(* the alignments the requests name are powers of two (align_of::<T>() always is) *)
+Definition op_wf (op : dop) : Prop :=
+  match op with
+  | DAlignedAsRef T _ | DAlignedAsMut T _ | DGetAtomicRef T _ | DFromSlice T _ _ =>
+      exists k, e_align T = 2 ^ k
+  | _ => True
+  end.
+
+(* alignment demanded of an accessor: typed and atomic references *)
+Definition acc_aligned (a : accessor) : Prop :=
+  match a with
+  | ATyped t | AAtomic t => tr_addr t mod tr_align t = 0
+  | _ => True
+  end.
+(* a valid piece of host memory: an address range below the top of the address space *)
+Definition acc_valid (a : accessor) : Prop := acc_base a + acc_len a < W64.
